@@ -81,7 +81,32 @@ def check_dofs(ctx, mc, rec, basis=None):
         return basis
     check_doflocs(ctx, mc, rec, elem, basis)
     check_split_indices(ctx, mc, rec, elem, basis)
+    check_offset(ctx, mc, rec, elem, basis)
     return basis
+
+
+def check_offset(ctx, mc, rec, elem, basis):
+    """Dofs(mesh, element, offset=k), the numbering a caller places behind k other unknowns: the same tables and per-cell
+    numbering, every number k higher - so tables and rows of that object agree with each other exactly as those of the
+    judged object do (range k..N-1 instead of 0..N-1)."""
+    import skfem
+    base = basis.dofs
+    k = 1 + (int(base.N) % 7)
+    try:
+        sh = skfem.assembly.Dofs(mc.mesh, rec.make(), offset=k)
+    except Exception as ex:  # noqa: BLE001
+        ctx.tolerated("tables-agree-with-rows")
+        ctx.drop("dofs-with-offset-refused:" + type(ex).__name__)
+        return
+    bad = None
+    for name in ("nodal_dofs", "edge_dofs", "facet_dofs", "interior_dofs", "element_dofs"):
+        a, b = np.asarray(getattr(sh, name)), np.asarray(getattr(base, name))
+        if a.shape != b.shape or not np.array_equal(a.astype(np.int64), b.astype(np.int64) + k):
+            bad = name
+            break
+    ctx.check("tables-agree-with-rows", bad is None and int(sh.N) == int(base.N) + k, mech="numbering-with-offset-is-not-the-shifted-numbering",
+              table=bad, offset=k, N=int(sh.N), want_N=int(base.N) + k, elem=rec.name, mesh=type(mc.mesh).__name__)
+    ctx.reached("numbering-with-offset")
 
 
 def row_components(elem, rd, dim):
@@ -720,4 +745,4 @@ FAMILIES.append(Family("periodic", periodic_case, 12, 240))
 FAMILIES.append(Family("registry", registry_complete, 1, 1))
 REQUIRED_REACH = ["rectangular-assembly", "periodic-topology", "composite-doflocs", "synthetic-dof-counts", "nested-wrappers",
                   "facet-basis-sparsity", "dof-locations-on-entities", "composite-basis-equal-dofnum",
-                  "composite-basis-of-facet-bases", "derived-mesh", "derived-from-a-parent-in-use", "split-indices"]
+                  "composite-basis-of-facet-bases", "derived-mesh", "derived-from-a-parent-in-use", "split-indices", "numbering-with-offset"]
